@@ -29,6 +29,54 @@ CHECKS['C04'] = dict(
     note='Trusted: vlib/refeval.py (documents as written), vlib/oracle_round.py. Programs outside the generator grammar (transcendentals, foreign values, '
          'pow/mod, nested lists beyond templates) are not explored; document-ambiguous cases are skipped and counted.')
 
+CHECKS['C05'] = dict(
+    category='exploration', design_ref='DESIGN.md §3 C05, §2.1',
+    technique='exhaustive small-encoding pairs + Hypothesis wide values vs exact-rational homomorphism oracle',
+    text='All encodings with c<16, exp in [-3,3], both signs (zeros at every exponent, redundant encodings), infinities, NaN as Float and RealFloat plus '
+         'int/float/Fraction pools incl. non-dyadic thirds: every ordered pair x every operator (+ - * ** neg pos abs, six comparisons, hash, compare, split, '
+         'normalize, is_more_significant, bit, int/float/trunc/floor/ceil/round, as_rational, from_*) is checked against denotations computed with Fractions and '
+         'IEEE special rules; equal values must hash equally across the five numeric types; a Hypothesis layer covers 400-bit significands and exponents +-10^4.',
+    note='Trusted: vlib/denote.py and Python Fraction arithmetic. Unsupported mixed-type combinations that raise TypeError are "not offered" and counted.')
+
+CHECKS['C16'] = dict(
+    category='exploration', design_ref='DESIGN.md §3 C16, §2.4',
+    technique='exhaustive bit-pattern and member enumeration of every small format vs reference decoders written from the published layouts',
+    text='Every bit pattern and member of every EFloat format the constructor accepts (all es, nbits<=8 quick / <=11 thorough, inf on/off, 4 NaN kinds, '
+         'eoffset in {-3,0,2}), IEEE, two\'s-complement, sign-magnitude and exponential formats, plus ordinal windows of the multi-precision families and sampled '
+         'binary16/32/64 patterns against numpy/struct: decode vs reference, encode/decode round trips up to NaN payload, ordinals strictly increasing and '
+         'contiguous with both zeros on one ordinal, next_up/next_down = +-1 ordinal, min/max queries, representable_in vs the decoded set (members, midpoints, '
+         'beyond range, specials), normalize canonical and value-preserving.',
+    note='Trusted: vlib/refdec.py (layouts as documented in the EFloatContext docstring/blog post), numpy for native formats.')
+
+CHECKS['C03'] = dict(
+    category='exploration', design_ref='DESIGN.md §3 C03, §2.3',
+    technique='generated operands/contexts incl. hard-case search vs MPFR directed-rounding enclosures at high precision + independent rounding oracle',
+    text='Every elementary/special function and named constant x operands (members of small source formats in the domain, domain edges, exact-result points, '
+         'Hypothesis hard-case search near breakpoints) x contexts (MPFloat p=1..64 dense and up to 400, subnormal-producing MPS/IEEE, fixed-point targets across the '
+         'result magnitude) x 8 modes: the true value is enclosed between MPFR round-down and round-up evaluations at 128..4096 bits, both ends are rounded by the '
+         'independent oracle, and the implementation must return that member; exactly representable results must come back exact with inexact=False. Undecided '
+         'enclosures are skipped and counted, never failed.',
+    note='Trusted: gmpy2/MPFR directed rounding at high precision (self-tested against published digits and identities), vlib/oracle_round.py. '
+         'pi/2, pi/4, sqrt(1/2) accept both the round-once and the documented double-rounding reading. Non-dyadic rational operands are refused by the library (counted probe).')
+
+CHECKS['C06'] = dict(
+    category='exploration', design_ref='DESIGN.md §3 C06',
+    technique='generated literal spellings through the real decorator vs an independent tokeniser to exact rationals + rounding oracle',
+    text='Literal spellings generated as text (integers to 60 digits, decimals, exponents to +-400, out-of-double-range, >17 digits, underscores, uppercase E, '
+         'boundary-directed decimal expansions of rounding breakpoints, negated zeros, hexfloat strings, rational(p,q), digits(m,e,b)) are compiled in five source '
+         'layouts and evaluated under REAL (must denote exactly the spelling) and under narrow contexts (fp.round(lit) must be the exact value rounded once). '
+         'One genuine defect is open (KNOWN-FINDING float-literal-via-double): the parser reads Python\'s already rounded float.',
+    note='Trusted: the tokeniser in props/c06_literals.py (Python lexical grammar, C99 hexfloat), vlib/oracle_round.py. A bare literal under a non-REAL context may be exact or rounded once.')
+
+CHECKS['C14'] = dict(
+    category='exploration', design_ref='DESIGN.md §3 C14, §2.7',
+    technique='traced program execution + exhaustive abstract-format member enumeration vs an independent membership predicate',
+    text='(a) generated typed programs analysed with pinned caller context/argument formats and run under a tracing interpreter: every traced value of every '
+         'expression/definition and the result must be a member of the inferred format (membership decided by our own predicate, for concrete formats by the C01 '
+         'oracle); (b) exhaustive: all small AbstractFormats (prec<=3, exp in [-2,1], small bounds, 2^4 special flags) x all members for + - * neg abs union '
+         'and the sub-format test; (c) round_is_identity True implies ctx.round(v) = v for every member. Four genuine defects are open known findings.',
+    note='Trusted: vlib/c14_member.py, vlib/trace.py hooks (values snapshotted at observation), vlib/oracle_round.py. Callee bodies are not traced.')
+
 NOT_YET = {}
 
 
